@@ -35,6 +35,8 @@ def run(ctx):
         b = {"enqs": ["a", "b", "d"], "selfenq": ["a", "d"], "waiters": ["w", "v"], "closers": ["c"],
              "id": len(beh), "steps": [], "free": True}
         beh.append(b)
+    for j in range(12 if quick else 200):
+        beh.append({"id": len(beh), "enqs": [], "selfenq": [], "waiters": [], "closers": [], "steps": [], "free": True, "churn": 1 + j % 4})
     ctx.log("%d gate-driven schedules (%d steps) + %d free-running stress runs" %
             (len(paths), sum(len(p) for p in paths), nfree))
     infile = vlib.write_json(os.path.join(ctx.work, "behaviours.json"), beh)
